@@ -264,6 +264,9 @@ def main():
             try:
                 out = evaluate(sub, args["spec"], [], stats)
                 stats.evaluations = 1
+                if args.get("_regress") and any(str(c).startswith("discarded") for c in (out.get("classes") or [])):
+                    # a regression replay must reach the code it guards: a generator change that makes its crystal undrawable is a harness error
+                    raise HarnessError("regression replay %s is discarded by the generator and no longer exercises anything" % args["_regress"])
                 if not out["ok"]:
                     stats.failure = {"spec": args["spec"], "msg": out["msg"], "info": jsonable(out.get("info"))}
             except HarnessError as e:
